@@ -286,37 +286,85 @@ func runC18(p *core.Prog, r *core.Report) {
 			}
 		}
 		fd, pk := p.FuncDecl(pkgMarsh, "unmarshalVT")
-		got := map[int]string{}
+		// the two entry variables, by role: m.Kv[<key var>] = <value var>
+		keyVar, valVar := "", ""
 		ast.Inspect(fd.Body, func(n ast.Node) bool {
-			ifs, ok := n.(*ast.IfStmt)
+			as, ok := n.(*ast.AssignStmt)
+			if !ok || len(as.Lhs) != 1 || len(as.Rhs) != 1 {
+				return true
+			}
+			ix, ok := as.Lhs[0].(*ast.IndexExpr)
 			if !ok {
 				return true
 			}
-			be, ok := ifs.Cond.(*ast.BinaryExpr)
-			if !ok || be.Op != token.EQL {
+			if sel, ok := ix.X.(*ast.SelectorExpr); !ok || sel.Sel.Name != "Kv" {
 				return true
 			}
-			id, ok := be.X.(*ast.Ident)
-			if !ok || id.Name != "fieldNum" {
-				return true
+			if k, ok := ix.Index.(*ast.Ident); ok {
+				keyVar = k.Name
 			}
-			tv, ok := pk.TypesInfo.Types[be.Y]
-			if !ok || tv.Value == nil {
-				return true
+			if v, ok := as.Rhs[0].(*ast.Ident); ok {
+				valVar = v.Name
 			}
-			num, _ := constant.Int64Val(tv.Value)
-			// which of the entry variables does the body assign
-			for _, s := range ifs.Body.List {
+			return true
+		})
+		if keyVar == "" || valVar == "" {
+			core.Undecide("unmarshalVT: assignment m.Kv[key] = value not found")
+		}
+		got := map[int]string{}
+		assigned := func(body []ast.Stmt) map[string]bool {
+			out := map[string]bool{}
+			for _, s := range body {
 				ast.Inspect(s, func(x ast.Node) bool {
 					if as, ok := x.(*ast.AssignStmt); ok {
 						for _, l := range as.Lhs {
-							if lid, ok := l.(*ast.Ident); ok && (lid.Name == "mapkey" || lid.Name == "mapvalue") {
-								got[int(num)] = lid.Name
+							if lid, ok := l.(*ast.Ident); ok && (lid.Name == keyVar || lid.Name == valVar) {
+								out[lid.Name] = true
 							}
 						}
 					}
 					return true
 				})
+			}
+			return out
+		}
+		record := func(numExpr ast.Expr, body []ast.Stmt) {
+			tv, ok := pk.TypesInfo.Types[numExpr]
+			if !ok || tv.Value == nil {
+				return
+			}
+			num, _ := constant.Int64Val(tv.Value)
+			a := assigned(body)
+			// the innermost dispatch: its branch fills exactly one of the two variables
+			if len(a) != 1 {
+				return
+			}
+			for name := range a {
+				role := "mapvalue"
+				if name == keyVar {
+					role = "mapkey"
+				}
+				got[int(num)] = role
+			}
+		}
+		ast.Inspect(fd.Body, func(n ast.Node) bool {
+			switch x := n.(type) {
+			case *ast.IfStmt:
+				if be, ok := x.Cond.(*ast.BinaryExpr); ok && be.Op == token.EQL {
+					if _, isIdent := be.X.(*ast.Ident); isIdent {
+						record(be.Y, x.Body.List)
+					}
+				}
+			case *ast.SwitchStmt:
+				if _, isIdent := x.Tag.(*ast.Ident); isIdent {
+					for _, st := range x.Body.List {
+						if cc, ok := st.(*ast.CaseClause); ok {
+							for _, e := range cc.List {
+								record(e, cc.Body)
+							}
+						}
+					}
+				}
 			}
 			return true
 		})
